@@ -22,7 +22,8 @@ EXPLANATION = (
     " Also: taking over IS acquiring (the takeover's result is _try_acquire's result); the cached ETag only ever holds the ETag of our own PUT; is_held returns decided constants; LocalLockProvider never removes the lock file."
     ' (R6) the existence-lock fallback is reached only when no kernel lock primitive is available; R2 covers counted `for` acquire loops too (a count of attempts is not a deadline).'
     ' (R7) an acquisition attempt reports success only after its own lock primitive completed normally (exception-aware set domination), and the state flag release()/is_held() rely on is set then.'
-    " (R8) the S3 lock owner token is a uuid4 drawn in the provider's own __init__; (R9) the lock directory is named only as the argument of create_lock; (R10) every provider a backend's create_lock builds is built on the canonical resolution of the path.")
+    " (R8) the S3 lock owner token is a uuid4 drawn in the provider's own __init__; (R9) the lock directory is named only as the argument of create_lock; (R10) every provider a backend's create_lock builds is built on the canonical resolution of the path."
+    ' (R11) the O_EXCL fallback lock is broken only under `age > k * timeout`.')
 NOT_DECIDED = "kernel / S3 semantics, interleavings, numeric timeout bounds"
 
 
